@@ -279,8 +279,8 @@ def gen_spec(rng, *, pool=None, n_base=None, max_len=4, labels=None, with_m=None
 
 # besides letters with unusual case mappings: letters without any case (CJK, kana, Thai, Hebrew, Arabic) - a mask changes nothing, but every (word, mask)
 # combination is still one guess
-ODD_ALPHA = {1: ['ß', 'ŉ', 'ǰ', 'ﬁ', 'ΐ', 'ı', 'ſ', 'ǆ', '中', 'あ', 'ש', 'ÿ', 'µ'], 2: ['ßa', 'aß', 'ŉo', 'ﬂy', 'ǆe', '中文', '日本', 'שם', 'ÿa', 'µm'], 3: ['fuß', 'ßen', 'aŉb', 'ǰaz', 'ﬁre', 'ǆem', 'ไทย', 'パスワ', 'سلا', 'ÿes', 'µms'],
-             4: ['weiß', 'fußb', 'ßßßß', 'oﬃc', 'ßeta', '中文密码', 'שלום', 'ÿves', 'µsec'], 5: ['straß', 'große', 'maßes', 'ǆungl', 'こんにちは', 'مرحبا']}
+ODD_ALPHA = {1: ['ß', 'ŉ', 'ǰ', 'ﬁ', 'ΐ', 'ı', 'ſ', 'ǆ', '中', 'あ', 'ש', 'ÿ', 'µ', 'İ'], 2: ['ßa', 'aß', 'ŉo', 'ﬂy', 'ǆe', '中文', '日本', 'שם', 'ÿa', 'µm', 'İz'], 3: ['fuß', 'ßen', 'aŉb', 'ǰaz', 'ﬁre', 'ǆem', 'ไทย', 'パスワ', 'سلا', 'ÿes', 'µms', 'İst'],
+             4: ['weiß', 'fußb', 'ßßßß', 'oﬃc', 'ßeta', '中文密码', 'שלום', 'ÿves', 'µsec'], 5: ['straß', 'große', 'maßes', 'ǆungl', 'こんにちは', 'مرحبا', 'İzmir']}
 
 def add_odd_alpha(rng, spec, k=3):
     """Add alpha words with letters whose upper() is longer than one character, not reversible, or differs from title case (sharp s, n-apostrophe,
